@@ -195,3 +195,27 @@ Theorem C07_cli_into_spec : forall a fs c,
    (forall f, In f (calls_filters false (cli_calls a)) -> ~ filter_matches f c)).
 Proof. exact cli_into_spec. Qed.
 Print Assumptions C07_cli_into_spec.
+
+(* schema[path] (MethodMap) lists every key of the path item whatever the filters; hence the methods the coverage
+   phase sends as unspecified (negative mode) do not depend on the filters, and none of them is the method of an
+   operation DEFINED for that path - in particular never one the user excluded *)
+Theorem C07_method_map_ignores_filters : forall fs fs' item,
+  method_map_keys fs item = method_map_keys fs' item /\ unspecified_methods fs item = unspecified_methods fs' item.
+Proof. exact method_map_ignores_filters. Qed.
+Print Assumptions C07_method_map_ignores_filters.
+
+Theorem C07_unspecified_method_not_defined : forall fs item m,
+  ci_distinct (map fst item) = true -> In m (unspecified_methods fs item) -> ~ In m (map fst item).
+Proof. exact unspecified_not_defined. Qed.
+Print Assumptions C07_unspecified_method_not_defined.
+
+(* ... and false when two keys are equal up to case (post, Post): finding C07-F5 *)
+Theorem C07_unspecified_method_not_defined_refuted : exists fs item m,
+  ci_distinct (map fst item) = false /\ In m (unspecified_methods fs item) /\ In m (map fst item) /\
+  is_http_method m = true.
+Proof.
+  exists fs_empty, [([112;111;115;116]%N, {| od_raw := JNull; od_resolved := JNull |});
+                    ([80;111;115;116]%N, {| od_raw := JNull; od_resolved := JNull |})], [112;111;115;116]%N.
+  exact unspecified_not_defined_refuted.
+Qed.
+Print Assumptions C07_unspecified_method_not_defined_refuted.
